@@ -166,19 +166,31 @@ GEOM_ENTRIES = [
 ]
 
 
+# entry points that contain constructs outside the strict fragment (python sets, KDTree): interpreted in tolerant mode, i.e.
+# unmodelled statements are skipped and only the typed remainder is judged (more coverage, never a spurious finding)
+GEOM_TOLERANT = [
+    ("magpylib._src.fields.field_BH_triangularmesh", "get_inwards_mask", dict(vertices=L, triangles=D(isint=True))),
+    ("magpylib._src.fields.field_BH_triangularmesh", "fix_trimesh_orientation", dict(vertices=L, faces=D(isint=True))),
+    ("magpylib._src.fields.field_BH_triangularmesh", "get_intersecting_triangles", dict(vertices=L, triangles=D(isint=True))),
+]
+
+
 def run_geometry(root=None):
     root = root or common.REPO
     results = []
-    for modname, fname, bind in GEOM_ENTRIES:
+    for modname, fname, bind in GEOM_ENTRIES + GEOM_TOLERANT:
         arepo = ARepo(root)
         dom = LinDimDomain()
         dom.repo_summaries = {}
         it = Interp(arepo, dom)
+        it.tolerant = (modname, fname, bind) in GEOM_TOLERANT
         mod = arepo.module(modname)
         if mod is None or fname not in mod.funcs:
             raise AnalysisError(f"anchor vanished: {modname}.{fname}")
         f = FuncRef(mod, mod.funcs[fname])
         res = {"entry": fname, "function": fname, "module": modname, "error": None}
+        fparams = {a.arg for a in mod.funcs[fname].args.args}
+        bind = {k: v for k, v in bind.items() if k in fparams}
         try:
             out = it.call_func(f, [], dict(bind), mod.funcs[fname])
         except Unsupported as e:
